@@ -149,11 +149,16 @@ def _run(ctx, t0):
 
     chk_note = None
     if ok_p and ctx.tier == 'thorough' and not os.environ.get('VERIF_NO_COQCHK'):
-        ok_c, ax_c, out_c = coq.coqchk(props_v)
-        chk_note = 'coqchk -o on %s and its dependencies: %s; axioms: %s' % (
-            props_v, 'accepted' if ok_c else 'FAILED', ', '.join(ax_c) or 'none')
+        ok_c, ax_c, out_c = coq.coqchk(props_v, getattr(mod, 'COQCHK_TIMEOUT', 1500))
+        if ok_c is None:
+            chk_note = 'coqchk -o on %s: %s (it re-checks vm_compute casts by lazy conversion; not counted either way)' % (props_v, out_c)
+        else:
+            chk_note = 'coqchk -o on %s and its dependencies: %s; axioms: %s' % (
+                props_v, 'accepted' if ok_c else 'FAILED', ', '.join(ax_c) or 'none')
         ctx.log(chk_note)
-        if not ok_c:
+        if ok_c is None:
+            pass
+        elif not ok_c:
             proof_problems.append('coqchk rejects the compiled development: ' + _tail(out_c))
         elif ax_c:
             proof_problems.append('coqchk reports axioms: ' + ', '.join(ax_c))
